@@ -7,7 +7,9 @@ Reads (comments stripped, whitespace normalised)
   breakpad-symbols/src/sym_file/types.rs   Function::{memory_range, get_outermost_sourceloc, get_innermost_sourceloc,
                                            get_inlinee_at_depth}; field order of PublicSymbol / Inlinee (derived Ord)
   breakpad-symbols/src/sym_file/parser.rs  finish_item (Line::Function arm), finish (publics.sort, FUNC table builder),
-                                           insert_win_stack_info, the parser-local into_rangemap_safe (merge step)
+                                           insert_win_stack_info, the parser-local into_rangemap_safe (merge step);
+                                           round 5: the record-collecting arms of parse_more (FILE / INLINE_ORIGIN / PUBLIC /
+                                           FUNC block and its sub-lines) and parse_func_subline, as literal pins
   breakpad-symbols/src/lib.rs              Symbolizer::fill_symbol, get_symbol_at_address
   minidump-unwind/src/lib.rs               fill_source_line_info
 Every function body must match a template.  The template's literal text pins the statement structure; its holes
@@ -267,6 +269,29 @@ for need in ("if let Some(item) = self.cur_item.take() { self.finish_item(item);
              "inline_origins: self.inline_origins,"):
     if need not in fin:
         die("SymbolParser::finish (parser.rs): `%s` not found" % need)
+
+# round 5: how parse_more collects the records (the model's raw_file = every record of a kind, in file order).
+# Literal pins, no holes: a record kind that is filtered, reordered or filed elsewhere at collection time aborts here.
+PM = "SymbolParser::parse_more (parser.rs)"
+pm = block_after(pa, r"pub fn parse_more\(&mut self, mut input: &\[u8\]\) -> Result<usize, SymbolError> \{", PM)
+for need, why in (
+        ("Line::File(id, filename) => { self.files.insert(id, filename.to_string()); }", "every FILE record goes into the file map"),
+        ("Line::InlineOrigin(id, function) => { self.inline_origins.insert(id, function.to_string()); }",
+         "every top-level INLINE_ORIGIN record goes into the origin map"),
+        ("Line::Public(p) => { self.publics.push(p); }", "every PUBLIC record is kept, in file order"),
+        ("item @ Line::Function(_, _, _) => { self.cur_item = Some(item); }", "a FUNC line opens a block"),
+        ("Some(Line::Function(cur, mut lines, mut inlinees)) => { match self.parse_func_subline(input, &mut lines, &mut inlinees) { "
+         "Ok((new_input, ())) => { input = new_input; self.cur_item = Some(Line::Function(cur, lines, inlinees)); self.lines += 1; continue; } "
+         "Err(_) => { self.finish_item(Line::Function(cur, lines, inlinees)); continue; } } }",
+         "sub-lines are added to the open FUNC block until one does not parse; then finish_item and the top-level parser")):
+    if need not in pm:
+        die("%s no longer has the shape the model C11/Model.v was written for (%s).\n  expected: %s" % (PM, why, need))
+PS = "SymbolParser::parse_func_subline (parser.rs)"
+match("if input.starts_with(b\"INLINE_ORIGIN \") { let (input, (id, function)) = inline_origin_line(input)?; "
+      "self.inline_origins.insert(id, function); return Ok((input, ())); } "
+      "if input.starts_with(b\"INLINE \") { let (input, new_inlinees) = inline_line(input)?; inlinees.extend(new_inlinees); "
+      "return Ok((input, ())); } let (input, line) = func_line_data(input)?; lines.push(line); Ok((input, ()))",
+      block_after(pa, r"fn parse_func_subline<'a>\(\s*&mut self,\s*input: &'a \[u8\],\s*lines: &mut Vec<SourceLine>,\s*inlinees: &mut Vec<Inlinee>,?\s*\) -> IResult<&'a \[u8\], \(\)> \{", PS), PS)
 
 WI = "insert_win_stack_info (parser.rs)"
 wi = match("if let Some(memory_range) = info.memory_range() { if let Some((last_range, last_info)) = stack_win.last_mut() { "
